@@ -1365,8 +1365,15 @@ def run_o_intcoords(inp):
         cen = H.IdealPoint(np.array(H.Segment(H.Point(np.array(inp["a"], dtype=float), model="halfspace"),
                                               H.Point(np.array(inp["b"], dtype=float), model="halfspace")).ideal_basis, dtype=float)[..., 1, :])
         return H.Horosphere(cen, pa)
-    ref, obj = build(False), build(True)
-    want, got = _h_query(kind, ref, dim, inp["degrees"]), _h_query(kind, obj, dim, inp["degrees"])
+    ref = build(False)
+    with np.errstate(all="ignore"):
+        want = _h_query(kind, ref, dim, inp["degrees"])
+    # degenerate positions that integral coordinates hit exactly (a geodesic through the centre of the Poincare ball has no
+    # finite circle; thorough-tier false alarm) are not the subject here, exactly as in integer_data_oracle
+    if not all(np.all(np.isfinite(a)) and (a.size == 0 or np.max(np.abs(a)) < 50) for a in want):
+        return {"skip": True}
+    obj = build(True)
+    got = _h_query(kind, obj, dim, inp["degrees"])
     # the object passes through the points it was given: half-space coordinates of the endpoints / reference point
     through = 0.0
     if kind == "segment":
@@ -1379,6 +1386,8 @@ def judge_o_intcoords(inp, obs, lr):
     tags = {"kind": inp["kind"], "dim": inp["dim"], "pack": inp["pack"], "coords": "halfspace integers"}
     if "exc" in obs:
         return {"expected": "objects built from integral half-space coordinates", "observed": obs, "tags": dict(tags, exc=obs["exc"])}
+    if obs.get("skip"):
+        return None
     if not obs["same_as_float64"] or not obs["through"] <= 1e-9:
         return {"expected": "the same circle / sphere parameters, ideal endpoints and endpoint coordinates as for the float64 array of the same half-space coordinates; the segment ends at the points given",
                 "observed": obs, "tags": tags}
